@@ -82,6 +82,7 @@ type ledgerSim struct {
 	rng        *rand.Rand
 	fee        uint64
 	prev       *Scan
+	approveAll func(lib.TransactionI) // several nodes (multi mode): approve on all of them
 }
 
 // validator 0 holds more than 2/3 of the power, always signs and is never touched by the generated operations, so
@@ -295,6 +296,15 @@ func (s *ledgerSim) finish(sc *Scan) {
 	}
 }
 
+// approve: the operators of every node that executes this chain put the proposal on their approve list
+func (s *ledgerSim) approve(tx lib.TransactionI) {
+	if s.approveAll != nil {
+		s.approveAll(tx)
+		return
+	}
+	s.n.approve(tx)
+}
+
 func (s *ledgerSim) key(i int) crypto.PrivateKeyI { return s.n.valKeys[i] }
 
 func (s *ledgerSim) txFor(o Op) (lib.TransactionI, lib.ErrorI) {
@@ -334,14 +344,14 @@ func (s *ledgerSim) txFor(o Op) (lib.TransactionI, lib.ErrorI) {
 		from := s.n.accKeys[o.Who%len(s.n.accKeys)]
 		tx, e := fsm.NewDAOTransferTx(from, o.Amt, 1, 5000, 1, 1, 10000, h, false, "")
 		if e == nil {
-			s.n.approve(tx)
+			s.approve(tx)
 		}
 		return tx, e
 	case "maxcomm": // governance lowers / raises the number of committees a validator may stake for: everybody above it is trimmed
 		from := s.n.accKeys[o.Who%len(s.n.accKeys)]
 		tx, e := fsm.NewChangeParamTxUint64(from, fsm.ParamSpaceVal, fsm.ParamMaxCommittees, o.Amt, 1, 5000, 1, 1, 20000, h, "")
 		if e == nil {
-			s.n.approve(tx)
+			s.approve(tx)
 		}
 		return tx, e
 	}
